@@ -629,3 +629,43 @@ def run_c06(tier):
     from . import history
     history.run_histories(check, tier, ["X_Behaviour", "C06_Drivers", "C12_Function"])
     return check.finish()
+
+
+# ----------------------------------------------------------------------------------------------
+# C15: stereo information
+# ----------------------------------------------------------------------------------------------
+def run_c15(tier):
+    from .. import molgen
+    check = Check("C15", tier=tier)
+    check.rule = ("17 stereo molecules (1-2 stereo double bonds, stereocentres with x=R/S, both) x partitions into connected "
+                  "blocks (all partitions for <= 4 atoms) incl. cuts at the double bond, at single bonds elsewhere and through a "
+                  "slash-marked bond (mark written on both sides / one side) x random renderings (each fragment's marks follow its "
+                  "own writing order) x base-graph numberings; the reference relation is FragText!FragRel of the uncut molecule; "
+                  "non-trivial = at least one cut")
+    rng = common.rng("c15")
+    recs = []
+    per = 14 if tier == "quick" else 80
+    for smi in molgen.STEREO:
+        g, marks, reftoks = molgen.read_stereo(smi)
+        n = g.number_of_nodes()
+        parts = []
+        if n <= 5:
+            parts = list(molgen.all_partitions(g, 4))
+            rng.shuffle(parts)
+            parts = parts[: per * 2]
+        parts += [molgen.random_partition(g, rng, rng.randint(1, min(4, n))) for _ in range(per)]
+        for block in parts:
+            cfg = molgen.make_cut_config(g, block, rng, marks=marks, cutmark=rng.choice(["both", "both", "a", "b"]))
+            if cfg is None:
+                continue
+            r = cut_record(g, cfg, legacy=True)
+            r["smi"] = smi
+            r["reftoks"] = reftoks
+            r["marked_cuts"] = cfg["marked_cuts"]
+            recs.append(r)
+    verdicts = validate_with(check, recs, extra=("reftoks",))
+    CLAUSES["C15"] = ["X_Accepted", "C15_Chiral", "C15_Relation", "C15_PathExists"]
+    judge(check, "C15", recs, verdicts, nontrivial=lambda r, v: r.get("ncuts", 0) > 0)
+    check.extra["with_relations"] = sum(1 for v in verdicts if v.get("nrel", 0) > 0)
+    check.extra["cut_through_marked_bond"] = sum(1 for r in recs if r.get("marked_cuts"))
+    return check.finish()
